@@ -18,7 +18,11 @@ EXPLANATION = ("(R1) dimension-and-scale inference over both converters, the dat
                "period, same rounding, same offset) of connection and disconnection time, and the offset is that function of "
                "the simulation start; (R5) the max_len cap stores arrival + max_len (resp. max_len as duration) exactly on the "
                "edge where the stay exceeds max_len; the force_feasible cap is a minimum of the document's energy and "
-               "max power x stay x period length.")
+               "max power x stay x period length; (R6) control structure of the two-stage capacity fit: the closed-form start is returned "
+               "only under the test of its own assumption (result >= transition SoC), the search only when gain(0) >= requested gain "
+               "(else the -1 marker), the bisection of the decreasing gain moves the lower end on `gain(mid) > target` and the upper "
+               "end otherwise, a fit is handed out only for a non-negative initial charge; the fit's helpers are unit-checked "
+               "interprocedurally from batt_cap_fn (parameter units inferred from the call arguments).")
 NOT_DECIDED = "that charging at full rate for the whole stay delivers exactly the requested energy with the two-stage fit (numeric)"
 
 DOC_FIELDS = {"arrival": "connectionTime", "departure": "disconnectTime", "requested_energy": "kWhDelivered",
